@@ -1,1 +1,2 @@
-// harness stub: nothing here yet
+// body of `mod verif_hx` in daemon/src/event/export.rs
+mod c01 { include!(concat!(env!("VERIF_HX_DIR"), "/daemon/export_c01_hx.rs")); }
